@@ -247,3 +247,34 @@ def no_fastmath(P, R, rule, modules, floor=1):
                     '(a NaN coordinate poisons the result instead of being skipped)', construct=f'{f.qualname} jit flags')
     R.floor(rule, 'jit kernels whose flags were inspected', n, floor)
     return n
+
+
+def decorated_methods(P, R, rule, funcs, note=''):
+    """Methods wrapped by a decorator defined in the repository run the decorator's wrapper, not just their own body: the
+    wrapper's stores into its receiver (first parameter) count as stores of the method.  A wrapper that writes the receiver
+    memoises results on the object (the same mutable result is then handed to every caller; concurrent first calls race)."""
+    E = effects(P)
+    n = 0
+    for f in funcs:
+        for D in f.tags.get('wrapped_by', []):
+            wrappers = []
+            stack = list(D.nested.values())
+            while stack:
+                w = stack.pop()
+                wrappers.append(w)
+                stack.extend(w.nested.values())
+            for w in wrappers:
+                if not w.params:
+                    continue
+                n += 1
+                recv = w.params[0]
+                probs = _problems(P, E, w, recv) if recv in E.mutated_params(w) else []
+                if probs:
+                    for node, why in probs:
+                        R.bad(rule, f, node, f'{f.qualname} is wrapped by {D.qualname}, whose wrapper {w.name} {why}: results are memoised on the object, '
+                              f'so every caller receives the same mutable result and later calls answer from it{note}', construct=f'{f.qualname} @{D.name}')
+                else:
+                    R.ok(rule, f, None, f'decorator {D.qualname} of {f.qualname} does not store into the receiver', construct=f'{f.qualname} @{D.name}')
+        for u in f.tags.get('unresolved', []):
+            R.abstain(rule, f, None, f'decorator `{u}` of {f.qualname} could not be resolved; its wrapper is not analysed', construct=f'{f.qualname} @{u}')
+    return n
